@@ -293,7 +293,12 @@ class AsyncTask(futures.FutureBase):
                 # this is really important. if we keep updating this traceback,
                 # we can glue all the different tasks' tracebacks and make it look like
                 # the error came from there.
-                error._traceback = sys.exc_info()[2]
+                try:
+                    error._traceback = sys.exc_info()[2]
+                except Exception:
+                    # (an exception class with a _task attribute of its own whose instances
+                    # take no new attributes: delivered without the glued traceback)
+                    pass
 
             if _debug_options.DUMP_EXCEPTIONS:
                 debug.dump_error(error)
